@@ -17,8 +17,8 @@ use p256::ecdsa::{signature::Signer, signature::Verifier, Signature, VerifyingKe
 use rand::Rng;
 
 #[derive(Clone, Copy, Debug, PartialEq)]
-enum Kind { Absent, Authentic, SigFlipped, ItemsReencodedAfterSigning, OtherSession, OtherItems, SelfSignedReader, ExpiredReader, DsCertAsReader, WrongKey, PayloadAttached, AlgEs384, NoX5chain, X5chainInProtected }
-const KINDS: [Kind; 14] = [Kind::Absent, Kind::Authentic, Kind::SigFlipped, Kind::ItemsReencodedAfterSigning, Kind::OtherSession, Kind::OtherItems, Kind::SelfSignedReader, Kind::ExpiredReader,
+enum Kind { OtherSessionAttachedOriginal, SameSessionAttachedOriginal, Absent, Authentic, SigFlipped, ItemsReencodedAfterSigning, OtherSession, OtherItems, SelfSignedReader, ExpiredReader, DsCertAsReader, WrongKey, PayloadAttached, AlgEs384, NoX5chain, X5chainInProtected }
+const KINDS: [Kind; 16] = [Kind::OtherSessionAttachedOriginal, Kind::SameSessionAttachedOriginal, Kind::Absent, Kind::Authentic, Kind::SigFlipped, Kind::ItemsReencodedAfterSigning, Kind::OtherSession, Kind::OtherItems, Kind::SelfSignedReader, Kind::ExpiredReader,
     Kind::DsCertAsReader, Kind::WrongKey, Kind::PayloadAttached, Kind::AlgEs384, Kind::NoX5chain, Kind::X5chainInProtected];
 
 fn der(c: &x509_cert::Certificate) -> Vec<u8> { use der::Encode; c.to_der().unwrap() }
@@ -59,7 +59,7 @@ fn build(kind: Kind, idx: usize, pki: &Pki, transcript: &Value, other_transcript
         Kind::WrongKey => { key = world::key_from(rng); }
         _ => {}
     }
-    let sign_transcript = if kind == Kind::OtherSession { other_transcript } else { transcript };
+    let sign_transcript = if kind == Kind::OtherSession || kind == Kind::OtherSessionAttachedOriginal { other_transcript } else { transcript };
     let sign_items = if kind == Kind::OtherItems { items_request(&doc_type, &["portrait"], false) } else { items.clone() };
     if kind == Kind::X5chainInProtected { prot = to_bytes(&Value::Map(vec![(Value::Integer(1.into()), Value::Integer((-7).into())), (Value::Integer(33.into()), Value::Bytes(der(&cert)))])); }
     let tbs_signed = reader_auth_tbs(sign_transcript, &sign_items, &prot);
@@ -68,7 +68,11 @@ fn build(kind: Kind, idx: usize, pki: &Pki, transcript: &Value, other_transcript
     if kind == Kind::SigFlipped { let i = rng.gen_range(0..64); sig_bytes[i] ^= 1 << rng.gen_range(0..8); }
     if kind == Kind::ItemsReencodedAfterSigning { items = items_request(&doc_type, &["family_name", "age_over_18"], true); }
     let unprot = if kind == Kind::NoX5chain || kind == Kind::X5chainInProtected { Value::Map(vec![]) } else { Value::Map(vec![(Value::Integer(33.into()), Value::Bytes(der(&cert)))]) };
-    let payload = if kind == Kind::PayloadAttached { Value::Bytes(vec![1, 2, 3]) } else { Value::Null };
+    // the bytes that were actually signed, placed in the (normally nil) payload slot
+    let signed_ra = { let ra = Value::Array(vec![Value::Text("ReaderAuthentication".into()), sign_transcript.clone(), Value::Tag(24, Box::new(Value::Bytes(sign_items.clone())))]);
+        to_bytes(&Value::Tag(24, Box::new(Value::Bytes(to_bytes(&ra))))) };
+    let attached_original = kind == Kind::OtherSessionAttachedOriginal || kind == Kind::SameSessionAttachedOriginal;
+    let payload = if kind == Kind::PayloadAttached { Value::Bytes(vec![1, 2, 3]) } else if attached_original { Value::Bytes(signed_ra) } else { Value::Null };
     let reader_auth = Value::Array(vec![Value::Bytes(prot.clone()), unprot.clone(), payload, Value::Bytes(sig_bytes.clone())]);
     let dr = Value::Map(vec![(Value::Text("itemsRequest".into()), Value::Tag(24, Box::new(Value::Bytes(items.clone())))), (Value::Text("readerAuth".into()), reader_auth)]);
     // facts, independently
@@ -80,7 +84,7 @@ fn build(kind: Kind, idx: usize, pki: &Pki, transcript: &Value, other_transcript
     let sp = Signature::from_slice(&sig_bytes);
     let sa = match (&sp, &vk) { (Ok(s), Some(k)) => k.verify(&tbs_device, s).is_ok(), _ => false };
     let alg = if prot == vec![0xa1, 0x01, 0x38, 0x22] { "a:-35" } else { "a:-7" };
-    Built { doc_request: dr, facts: format!("p=t;x5p={};x5ok={};chain={};key={};alg={};att={};sp={};sa={}", t(x5p), t(chain.is_some()), chain_errs, t(vk.is_some()), alg, t(kind == Kind::PayloadAttached), t(sp.is_ok()), t(sa)) }
+    Built { doc_request: dr, facts: format!("p=t;x5p={};x5ok={};chain={};key={};alg={};att={};sp={};sa={}", t(x5p), t(chain.is_some()), chain_errs, t(vk.is_some()), alg, t(kind == Kind::PayloadAttached || attached_original), t(sp.is_ok()), t(sa)) }
 }
 
 pub fn run(ctx: &mut Ctx) {
